@@ -141,7 +141,7 @@ def parseEntry (C : Crypto) (chk : Bool) (key : Bytes) (ndx : Nat) (e : Bytes) :
 /-- the entry loop over the directory bytes; `len` is the length byte already read -/
 def parseEntries (C : Crypto) (chk : Bool) (key : Bytes) :
     Nat → Nat → Nat → Bytes → Except Err (List Entry)
-  | 0, _, _, _ => .error .valueError   -- unreachable: fuel = directory length + 1
+  | 0, _, _, _ => .error .outOfFuel   -- unreachable: fuel = directory length + 1 (C14: `fromBinary_total`)
   | fuel+1, ndx, len, dir =>
     if len = 0 then do
       ensureEof dir
